@@ -466,12 +466,15 @@ def strtodDecimal (neg : Bool) (r : List Nat) : Dbl :=
     else if 0 ≤ p then roundToDbl neg (d * 10 ^ p.toNat) 1
     else roundToDbl neg d (10 ^ (-p).toNat)
 
+/-- optional sign in front of the number: (negative?, rest) -/
+def signSplit (r0 : List Nat) : Bool × List Nat :=
+  match r0 with
+  | c :: t => if c = 45 then (true, t) else if c = 43 then (false, t) else (false, c :: t)
+  | [] => (false, [])
+
 /-- `strtod(s, NULL)`; `none` = hexadecimal form (not modelled) -/
 def strtodM (s : List Nat) : Option Dbl :=
-  let r0 := skipSpace s
-  let sg : Bool × List Nat := match r0 with
-    | c :: t => if c = 45 then (true, t) else if c = 43 then (false, t) else (false, r0)
-    | [] => (false, [])
+  let sg := signSplit (skipSpace s)
   if isHexPrefix sg.2 then none
   else if startsCI sg.2 [105, 110, 102] then some (.inf sg.1)
   else if startsCI sg.2 [110, 97, 110] then some (.nan sg.1)
